@@ -128,6 +128,17 @@ def d14():
     return cols != ['angular speed (rad/s)'], f"snapshot(variables=['angular speed']) has columns {cols}"
 
 
+def d16():
+    pt = spur_train()
+    Solver(pt).run(TimeInterval(0.0131, 'sec'), TimeInterval(0.1572, 'sec'))
+    t = pt.time[-1].to('ms')
+    try:
+        pt.snapshot(target_time=t, print_data=False)
+        return False, ''
+    except ValueError as e:
+        return True, f'snapshot at the last recorded instant expressed in ms ({t}) raises ValueError: {str(e)[:120]}'
+
+
 def d15():
     m = DCMotor(name='m', inertia_moment=InertiaMoment(1e-4, 'kgm^2'), no_load_speed=AngularSpeed(100, 'rad/s'), maximum_torque=Torque(1, 'Nm'),
                 no_load_electric_current=Current(0, 'A'), maximum_electric_current=Current(2, 'A'))
@@ -148,7 +159,7 @@ def d6():
     return oracle_quantity.d6_replay()
 
 
-TABLE = dict(D5=d5, D6=d6, D15=d15, D1=d1, D2=d2, D3=d3, D4=d4, D7=d7, D8=d8, D9=d9, D10=d10, D11=d11, D13=d13, D14=d14)
+TABLE = dict(D5=d5, D6=d6, D15=d15, D1=d1, D2=d2, D3=d3, D4=d4, D7=d7, D8=d8, D9=d9, D10=d10, D11=d11, D13=d13, D14=d14, D16=d16)
 
 
 def replay(fid):
